@@ -15,6 +15,16 @@ CHECKS = {
              "lexer for drop detection, junk-suffix metamorphic relation, sanitizers, bounded native stack). Finds violations; does not establish absence.",
         note="trusts ASan/UBSan and the harness lexer (common/parse_oracle.hpp); over-reads of exactly one byte past a std::string are invisible",
         design="4/C01"),
+    "C05": dict(
+        engine="rapidcheck+enumerator",
+        category="exploration",
+        technique="differential testing against natively compiled C++ expressions (templates/decltype as the oracle): exhaustive boundary-value matrix plus rapidcheck random operands, forked workers so traps are observed",
+        text="Every (operator, lhs type, rhs type) cell over 14 arithmetic types is run on an exhaustive boundary-value matrix through the runtime-node "
+             "and function routes (sampled on the two literal routes in the quick tier, exhaustive in thorough) plus rapidcheck-drawn random operands; "
+             "value (bit-exact), result size/signedness/floating-ness, in-place update and aliasing of compound assignment, and the trap set are "
+             "compared with the native expression. Exhaustive over the stated finite matrix, sampling beyond it.",
+        note="trusts g++ -O2 on x86-64 as the reference semantics; UB-without-trap inputs are excluded by predicate (counted in evidence)",
+        design="4/C05"),
     "C16": dict(
         engine="hypothesis-runner",
         category="exploration",
